@@ -40,6 +40,9 @@ DefaultPol == Pol("deep", "all")
 Max(a, b) == IF a > b THEN a ELSE b
 Min(a, b) == IF a < b THEN a ELSE b
 Range(s)  == {s[p] : p \in DOMAIN s}
+\* an explicit tuple instead of TLC's lazily evaluated function value (a long fold that applies
+\* EXCEPT to a lazy function builds a chain as deep as the fold)
+Tup(f)    == SubSeq(f, 1, Len(f))
 
 (***************************************************************************)
 (* CONTENT: marker documents and their pairwise (C05) merge                *)
@@ -70,7 +73,9 @@ PMerge(a, b, pol) ==
 RECURSIVE ContentFrom(_, _, _, _, _)
 ContentFrom(acc, prov, n, kinds, pol) ==
   IF n > Len(prov) THEN acc
-  ELSE ContentFrom(PMerge(acc, Src(prov[n], kinds[prov[n]]), pol), prov, n + 1, kinds, pol)
+  ELSE LET nx == PMerge(acc, Src(prov[n], kinds[prov[n]]), pol)
+       IN IF nx.nul \in BOOLEAN             \* forces nx now (TLC passes arguments lazily)
+          THEN ContentFrom(nx, prov, n + 1, kinds, pol) ELSE nx
 \* the document a provenance denotes: source documents merged left to right
 Content(prov, kinds, pol) == ContentFrom(Null, prov, 1, kinds, pol)
 
@@ -85,9 +90,9 @@ WithList(prov, kinds) == SelectSeq(prov, LAMBDA k : kinds[k] = "full")
 (* of the first document of its provenance.                                *)
 (***************************************************************************)
 HInit(kinds) ==
-  [dp |-> [k \in 1..Len(kinds) |-> IF kinds[k] = "empty" THEN 0 ELSE k],
-   dc |-> [k \in 1..Len(kinds) |-> [keys |-> {k}, shared |-> k, lp |-> IF kinds[k] = "full" THEN k ELSE 0]],
-   lc |-> [k \in 1..Len(kinds) |-> <<k>>],
+  [dp |-> Tup([k \in 1..Len(kinds) |-> IF kinds[k] = "empty" THEN 0 ELSE k]),
+   dc |-> Tup([k \in 1..Len(kinds) |-> [keys |-> {k}, shared |-> k, lp |-> IF kinds[k] = "full" THEN k ELSE 0]]),
+   lc |-> Tup([k \in 1..Len(kinds) |-> <<k>>]),
    div |-> FALSE]      \* TRUE once a step would never return (a list appended to itself, :302/:327)
 
 HContentOfCell(h, c) ==
@@ -139,7 +144,7 @@ HMerge(h, a, b, pol, copy) ==
 (***************************************************************************)
 (* The declarative definition of the three modes (the property statement)  *)
 (***************************************************************************)
-Singles(ids) == [p \in 1..Len(ids) |-> <<ids[p]>>]
+Singles(ids) == Tup([p \in 1..Len(ids) |-> <<ids[p]>>])
 RECURSIVE Flat(_)
 Flat(ss) == IF ss = <<>> THEN <<>> ELSE Head(ss) \o Flat(Tail(ss))
 
